@@ -524,6 +524,22 @@ def msc_case(ctx, inst, suite="K5.MinSetCover"):
     if abs(float(wsol - best[0])) > TOL:
         viol(ctx, f"MinSetCover.get_solution() = {sol} has weight {float(wsol)}; the cover {best[1]} weighs {float(best[0])}",
                       case, site="MinSetCover.not_minimal")
+        return case
+    # the same object solved again: still an optimum, and the same one as far as its weight goes
+    sol = list(sol)                      # (a copy: the object may hand out its own list)
+    try:
+        ret2 = m.solve()
+        sol2 = m.get_solution()
+    except Exception as e:
+        viol(ctx, f"MinSetCover: a second solve() / get_solution() on the same object raised {e!r}", dict(case, exception=repr(e)),
+             site="MinSetCover.exception")
+        return case
+    ok2 = (bool(ret2) and isinstance(sol2, list) and all(isinstance(i, int) and 0 <= i < n for i in sol2)
+           and len(set(sol2)) == len(sol2) and sum(Fraction(w_doc[i]) for i in sol2) == wsol
+           and all(any(x in inst["subsets"][i] for i in sol2) for x in inst["universe"]))
+    if not ok2:
+        viol(ctx, f"MinSetCover: after a second solve() on the same object get_solution() = {sol2!r} (solve() returned {ret2}); "
+                  f"after the first it was the optimum {sol}", dict(case, second=repr(sol2)), site="MinSetCover.resolve")
     return case
 
 
